@@ -543,6 +543,10 @@ func (p *uPacketPacker) MarshalInitialPacketPayload(pl payload, v protocol.Versi
 				qfs = append(qfs, QUICFrameCrypto{int(cryptoFrame.Offset), int(cryptoFrame.Length)})
 			}
 		}
+		// [UQUIC] one Initial datagram has been built: advance the per-datagram plan index on this
+		// path too. Without it every datagram of a pass-through flight (nil FrameBuilder, empty
+		// QUICFrames — all Firefox parrots) is packed with InitialPackets[0].
+		p.initialDatagramIdx++
 		return qfs.Build(cryptoData)
 	}
 
@@ -553,6 +557,7 @@ func (p *uPacketPacker) MarshalInitialPacketPayload(pl payload, v protocol.Versi
 		p.initialDatagramIdx++ // advance after building; each call corresponds to one datagram
 		return result, err
 	}
+	p.initialDatagramIdx++ // [UQUIC] same for a builder that only implements QUICFrameBuilder
 	return p.uSpec.InitialPacketSpec.FrameBuilder.Build(cryptoData)
 }
 
